@@ -1,0 +1,338 @@
+// Filesystem seam used only by the deterministic simulator (feature "verif_sim").
+//
+// With the feature off this module is not compiled and every call site uses std::fs directly.
+// With the feature on, the types below mirror the subset of std::fs that physis uses. Each call
+// is forwarded to a backend installed for the current thread; when no backend is installed the
+// calls go to std::fs, so behaviour is unchanged.
+
+use std::cell::RefCell;
+use std::ffi::OsString;
+use std::io::{self, Read, Seek, SeekFrom, Write};
+use std::path::{Path, PathBuf};
+use std::rc::Rc;
+
+#[derive(Clone, Debug, Default)]
+pub struct OpenSpec {
+    pub read: bool,
+    pub write: bool,
+    pub create: bool,
+    pub truncate: bool,
+}
+
+#[derive(Clone, Debug)]
+pub struct Metadata {
+    is_dir: bool,
+    is_file: bool,
+    len: u64,
+}
+
+impl Metadata {
+    pub fn new(is_dir: bool, is_file: bool, len: u64) -> Self {
+        Self {
+            is_dir,
+            is_file,
+            len,
+        }
+    }
+    pub fn is_dir(&self) -> bool {
+        self.is_dir
+    }
+    pub fn is_file(&self) -> bool {
+        self.is_file
+    }
+    #[allow(clippy::len_without_is_empty)]
+    pub fn len(&self) -> u64 {
+        self.len
+    }
+    fn from_std(m: std::fs::Metadata) -> Self {
+        Self::new(m.is_dir(), m.is_file(), m.len())
+    }
+}
+
+#[derive(Clone, Debug)]
+pub struct FileType {
+    is_dir: bool,
+    is_file: bool,
+}
+
+impl FileType {
+    pub fn is_dir(&self) -> bool {
+        self.is_dir
+    }
+    pub fn is_file(&self) -> bool {
+        self.is_file
+    }
+}
+
+/// What a simulated filesystem has to provide.
+pub trait Backend {
+    fn open(&self, path: &Path, spec: &OpenSpec) -> io::Result<u64>;
+    fn close(&self, fd: u64);
+    fn read(&self, fd: u64, buf: &mut [u8]) -> io::Result<usize>;
+    fn write(&self, fd: u64, buf: &[u8]) -> io::Result<usize>;
+    fn seek(&self, fd: u64, pos: SeekFrom) -> io::Result<u64>;
+    fn set_len(&self, fd: u64, len: u64) -> io::Result<()>;
+    fn metadata(&self, path: &Path) -> io::Result<Metadata>;
+    /// Entries as (file name, metadata-or-error) in the order the backend chooses.
+    fn read_dir(&self, path: &Path) -> io::Result<Vec<(OsString, io::Result<Metadata>)>>;
+    fn create_dir_all(&self, path: &Path) -> io::Result<()>;
+    fn remove_file(&self, path: &Path) -> io::Result<()>;
+    fn remove_dir_all(&self, path: &Path) -> io::Result<()>;
+}
+
+thread_local! {
+    static BACKEND: RefCell<Option<Rc<dyn Backend>>> = const { RefCell::new(None) };
+}
+
+/// Installs (or with `None` removes) the backend used by the current thread.
+pub fn set_backend(backend: Option<Rc<dyn Backend>>) {
+    BACKEND.with(|b| *b.borrow_mut() = backend);
+}
+
+fn backend() -> Option<Rc<dyn Backend>> {
+    BACKEND.with(|b| b.borrow().clone())
+}
+
+enum Inner {
+    Real(std::fs::File),
+    Sim(Rc<dyn Backend>, u64),
+}
+
+pub struct File {
+    inner: Inner,
+}
+
+impl File {
+    pub fn open<P: AsRef<Path>>(path: P) -> io::Result<File> {
+        OpenOptions::new().read(true).open(path)
+    }
+
+    pub fn set_len(&self, len: u64) -> io::Result<()> {
+        match &self.inner {
+            Inner::Real(f) => f.set_len(len),
+            Inner::Sim(b, fd) => b.set_len(*fd, len),
+        }
+    }
+}
+
+impl Drop for File {
+    fn drop(&mut self) {
+        if let Inner::Sim(b, fd) = &self.inner {
+            b.close(*fd);
+        }
+    }
+}
+
+impl Read for &File {
+    fn read(&mut self, buf: &mut [u8]) -> io::Result<usize> {
+        match &self.inner {
+            Inner::Real(f) => (&*f).read(buf),
+            Inner::Sim(b, fd) => b.read(*fd, buf),
+        }
+    }
+}
+
+impl Write for &File {
+    fn write(&mut self, buf: &[u8]) -> io::Result<usize> {
+        match &self.inner {
+            Inner::Real(f) => (&*f).write(buf),
+            Inner::Sim(b, fd) => b.write(*fd, buf),
+        }
+    }
+    fn flush(&mut self) -> io::Result<()> {
+        match &self.inner {
+            Inner::Real(f) => (&*f).flush(),
+            Inner::Sim(..) => Ok(()),
+        }
+    }
+}
+
+impl Seek for &File {
+    fn seek(&mut self, pos: SeekFrom) -> io::Result<u64> {
+        match &self.inner {
+            Inner::Real(f) => (&*f).seek(pos),
+            Inner::Sim(b, fd) => b.seek(*fd, pos),
+        }
+    }
+}
+
+impl Read for File {
+    fn read(&mut self, buf: &mut [u8]) -> io::Result<usize> {
+        (&*self).read(buf)
+    }
+}
+
+impl Write for File {
+    fn write(&mut self, buf: &[u8]) -> io::Result<usize> {
+        (&*self).write(buf)
+    }
+    fn flush(&mut self) -> io::Result<()> {
+        (&*self).flush()
+    }
+}
+
+impl Seek for File {
+    fn seek(&mut self, pos: SeekFrom) -> io::Result<u64> {
+        (&*self).seek(pos)
+    }
+}
+
+#[derive(Clone, Debug, Default)]
+pub struct OpenOptions {
+    spec: OpenSpec,
+}
+
+impl OpenOptions {
+    #[allow(clippy::new_without_default)]
+    pub fn new() -> Self {
+        Self::default()
+    }
+    pub fn read(&mut self, v: bool) -> &mut Self {
+        self.spec.read = v;
+        self
+    }
+    pub fn write(&mut self, v: bool) -> &mut Self {
+        self.spec.write = v;
+        self
+    }
+    pub fn create(&mut self, v: bool) -> &mut Self {
+        self.spec.create = v;
+        self
+    }
+    pub fn truncate(&mut self, v: bool) -> &mut Self {
+        self.spec.truncate = v;
+        self
+    }
+    pub fn open<P: AsRef<Path>>(&self, path: P) -> io::Result<File> {
+        match backend() {
+            None => std::fs::OpenOptions::new()
+                .read(self.spec.read)
+                .write(self.spec.write)
+                .create(self.spec.create)
+                .truncate(self.spec.truncate)
+                .open(path)
+                .map(|f| File {
+                    inner: Inner::Real(f),
+                }),
+            Some(b) => {
+                let fd = b.open(path.as_ref(), &self.spec)?;
+                Ok(File {
+                    inner: Inner::Sim(b, fd),
+                })
+            }
+        }
+    }
+}
+
+pub struct DirEntry {
+    path: PathBuf,
+    meta: io::Result<Metadata>,
+}
+
+impl DirEntry {
+    pub fn path(&self) -> PathBuf {
+        self.path.clone()
+    }
+    pub fn metadata(&self) -> io::Result<Metadata> {
+        match &self.meta {
+            Ok(m) => Ok(m.clone()),
+            Err(e) => Err(io::Error::new(e.kind(), e.to_string())),
+        }
+    }
+    pub fn file_type(&self) -> io::Result<FileType> {
+        self.metadata().map(|m| FileType {
+            is_dir: m.is_dir,
+            is_file: m.is_file,
+        })
+    }
+}
+
+pub struct ReadDir {
+    entries: std::vec::IntoIter<io::Result<DirEntry>>,
+}
+
+impl Iterator for ReadDir {
+    type Item = io::Result<DirEntry>;
+    fn next(&mut self) -> Option<Self::Item> {
+        self.entries.next()
+    }
+}
+
+pub fn read_dir<P: AsRef<Path>>(path: P) -> io::Result<ReadDir> {
+    let path = path.as_ref();
+    let entries: Vec<io::Result<DirEntry>> = match backend() {
+        None => std::fs::read_dir(path)?
+            .map(|e| {
+                e.map(|e| DirEntry {
+                    path: e.path(),
+                    meta: e.metadata().map(Metadata::from_std),
+                })
+            })
+            .collect(),
+        Some(b) => b
+            .read_dir(path)?
+            .into_iter()
+            .map(|(name, meta)| {
+                Ok(DirEntry {
+                    path: path.join(name),
+                    meta,
+                })
+            })
+            .collect(),
+    };
+    Ok(ReadDir {
+        entries: entries.into_iter(),
+    })
+}
+
+pub fn metadata<P: AsRef<Path>>(path: P) -> io::Result<Metadata> {
+    match backend() {
+        None => std::fs::metadata(path).map(Metadata::from_std),
+        Some(b) => b.metadata(path.as_ref()),
+    }
+}
+
+pub fn create_dir_all<P: AsRef<Path>>(path: P) -> io::Result<()> {
+    match backend() {
+        None => std::fs::create_dir_all(path),
+        Some(b) => b.create_dir_all(path.as_ref()),
+    }
+}
+
+pub fn remove_file<P: AsRef<Path>>(path: P) -> io::Result<()> {
+    match backend() {
+        None => std::fs::remove_file(path),
+        Some(b) => b.remove_file(path.as_ref()),
+    }
+}
+
+pub fn remove_dir_all<P: AsRef<Path>>(path: P) -> io::Result<()> {
+    match backend() {
+        None => std::fs::remove_dir_all(path),
+        Some(b) => b.remove_dir_all(path.as_ref()),
+    }
+}
+
+/// Same contract as std::fs::read: reads until end of file, retrying interrupted reads.
+pub fn read<P: AsRef<Path>>(path: P) -> io::Result<Vec<u8>> {
+    let mut file = File::open(path)?;
+    let mut bytes = Vec::new();
+    file.read_to_end(&mut bytes)?;
+    Ok(bytes)
+}
+
+pub fn read_to_string<P: AsRef<Path>>(path: P) -> io::Result<String> {
+    let mut file = File::open(path)?;
+    let mut string = String::new();
+    file.read_to_string(&mut string)?;
+    Ok(string)
+}
+
+pub fn write<P: AsRef<Path>, C: AsRef<[u8]>>(path: P, contents: C) -> io::Result<()> {
+    let mut file = OpenOptions::new()
+        .write(true)
+        .create(true)
+        .truncate(true)
+        .open(path)?;
+    file.write_all(contents.as_ref())
+}
